@@ -34,7 +34,10 @@ func checkPipe(px *parserExec, decBuf int) (r pipeResult) {
 	c := DecCase{Vehicle: "dec", Cfg: DCfg{WindowSize: w, BufferSize: decBuf}}
 	dx, err := newDecExec(c)
 	if err != nil {
-		r.msg, r.bad = fmt.Sprintf("NewDecoder(WindowSize %d, BufferSize %d): %v", w, decBuf, err), false
+		// The parser accepted WindowSize w; C07 pairs it with a Decoder of
+		// the same window and BufferSize 0 (the default) or any value > w.
+		r.msg = fmt.Sprintf("NewDecoder(WindowSize %d, BufferSize %d): %v", w, decBuf, err)
+		r.bad = decBuf == 0 || (decBuf > w && int64(decBuf) <= 1<<32-1)
 		return r
 	}
 	free := dx.cc.BufferSize - dx.cc.WindowSize
@@ -117,7 +120,11 @@ func TestC07Parsers(t *testing.T) {
 			rapid.Check(t, func(t *rapid.T) {
 				cfg := genPCfg(t, kind, 300)
 				// small windows, block sizes from 1 to beyond 4*W
-				if rapid.IntRange(0, 3).Draw(t, "smallWin") > 0 {
+				opts := pipeOpts()
+				if rapid.IntRange(0, 9).Draw(t, "hugeWin") < 2 {
+					hugeWindowTweak(t, &cfg)
+					opts.ntl, opts.ntlPair, opts.uniformPct, opts.tinyPct = 50, 6, 40, 0
+				} else if rapid.IntRange(0, 3).Draw(t, "smallWin") > 0 {
 					cfg.WindowSize = rapid.IntRange(1, 24).Draw(t, "w")
 					if kind == "GSAP" && cfg.WindowSize < maxInt(cfg.MinMatchLen, 3) {
 						cfg.WindowSize = maxInt(cfg.MinMatchLen, 3)
@@ -140,11 +147,14 @@ func TestC07Parsers(t *testing.T) {
 				decBuf := 0
 				if w < 1<<20 && rapid.Bool().Draw(t, "decBufSet") {
 					decBuf = w + 1 + genSize(t, "decBuf", 3*w, 0, 1, w-1, w)
+				} else if w >= 1<<20 && rapid.Bool().Draw(t, "decBufSetBig") {
+					// nothing of that size is allocated
+					decBuf = minInt(w+rapid.SampledFrom([]int{1, 7, 8, 1 << 20, w}).Draw(t, "decBufBig"), 1<<32-1)
 				}
 				pc := func() any { return PipeCase{Parser: px.Case(), DecBuf: decBuf} }
 				beginCase("C07", "pipe-"+kind, pc)
 				defer endCase() // also when rapid abandons the case half-way (fuzzing: input used up)
-				genParserHistory(t, px, pipeOpts())
+				genParserHistory(t, px, opts)
 				var r pipeResult
 				if !px.dead {
 					r = checkPipe(px, decBuf)
